@@ -4,6 +4,9 @@ package main
 // policy (VIOLATION / KNOWN-FINDING), evidence files.
 
 import (
+	"os/exec"
+	"context"
+	"regexp"
 	"encoding/json"
 	"flag"
 	"fmt"
@@ -20,6 +23,7 @@ type PropConfig struct {
 	Functions   []string `json:"functions"`          // verified with their contracts
 	Sweep       []string `json:"sweep"`              // verified in zero-annotation mode (safety obligations only)
 	Lemmas      []string `json:"lemmas"`             // SMT lemma files (must be unsat)
+	LeanLemmas  []string `json:"lean_lemmas"`        // Lean 4 files (checked by `lean`, Mathlib) — thorough tier only
 	LemmaPkgs   []string `json:"lemma_pkgs"`         // packages whose `lemma` clauses belong to this property
 	Assumptions []string `json:"assumptions"`        // unchecked assumptions, reported verbatim
 	Kinds       []string `json:"kinds"`              // restrict counted obligations to these kinds (optional)
@@ -180,6 +184,35 @@ func cmdCheck(args []string) int {
 		} else {
 			vc.SMT = strings.Replace(string(data), "(check-sat)", "", -1)
 			solveAll([]*VC{vc}, secs, mode, 1)
+		}
+		all = append(all, vc)
+	}
+
+	// Lean lemmas: paper steps that were mechanised (e.g. uniqueness of the final status vector, C02).
+	// Checking one costs ~20-60 s (Mathlib import), so it is part of the thorough tier only; the quick
+	// tier records that the lemma exists and scans it for sorry / admit / axiom.
+	for _, lf := range pc.LeanLemmas {
+		path := filepath.Join(verifRoot, lf)
+		vc := &VC{Obl: "lemma:" + filepath.Base(lf), Kind: "lemma", Fn: "lemma", Goal: "lean accepts the file; no sorry / admit / axiom in it"}
+		data, err := os.ReadFile(path)
+		switch {
+		case err != nil:
+			vc.Status, vc.Output = "error", err.Error()
+		case regexp.MustCompile(`\b(sorry|admit|axiom)\b`).Match(data):
+			vc.Status, vc.Output = "error", "the Lean file contains sorry / admit / axiom"
+		case *tier != "thorough":
+			vc.Status, vc.Solver = "unsat", "lean (not re-checked in the quick tier; scan only)"
+		default:
+			t0 := time.Now()
+			ctx, cancel := context.WithTimeout(context.Background(), 15*time.Minute)
+			out, err := exec.CommandContext(ctx, "lean", path).CombinedOutput()
+			cancel()
+			vc.Secs = time.Since(t0).Seconds()
+			if err != nil || strings.Contains(string(out), "error") {
+				vc.Status, vc.Solver, vc.Output = "error", "lean-4.33", truncate(string(out), 600)
+			} else {
+				vc.Status, vc.Solver = "unsat", "lean-4.33"
+			}
 		}
 		all = append(all, vc)
 	}
